@@ -1,4 +1,44 @@
-import Mwp.Model.Analysis
-import Mwp.Spec.Calculus
+/-
+  C01 — Every reported bound is a derivation of the mwp flow calculus.
+
+  Proved so far (loops are being added on top of Lemmas/RelFix):
+  * `vector_table_documented`: the table of `create_vector`, REGENERATED from the live code on
+    every run, is the documented rule table of the calculus (three alternatives per binary
+    operation) up to pymwp's numbering of the two asymmetric alternatives;
+  * `loopfree_analysis_is_calculus`: for every loop-free statement of the supported fragment
+    (assignments of variables / constants / binary operations with all aliasing patterns, the
+    unary and cast sugar, blocks, if/else, labels, comma expressions, nested arbitrarily) the
+    relation computed by the model of `Analysis.compute_relation` MEANS, at every choice vector,
+    exactly the matrix the pointwise calculus `Spec.sem` derives (and is free of ∞).
+  The model is tied to the code by the differential runs of harness/props/c01.py, which also
+  evaluate the full property (valid set = derivable set, matrices, bound) on the implementation's
+  own reports with `Spec.sem` as oracle, loops included.
+-/
+import Mwp.Lemmas.RefineLoopFree
 namespace Mwp.Props.C01
+open Mwp Mwp.Spec Mwp.Refine
+
+theorem vector_table_documented (op : String) (hop : op ∈ Gen.binOps) (x : String) (a b : Atom) :
+    (Gen.vectorTable op (classY x (atomName a)) (classZ x (atomName a) (atomName b))).length
+      = (stmtVars x (atomName a) (atomName b)).length ∧
+    ∀ alt, alt < 3 → ∀ k, k < (stmtVars x (atomName a) (atomName b)).length →
+      entryVal ((Gen.vectorTable op (classY x (atomName a)) (classZ x (atomName a) (atomName b))).getD k .zero) alt
+        = operandFlow op a b (swapAlt ((Cmd.bin op x a b).swaps == [true]) alt)
+            ((stmtVars x (atomName a) (atomName b)).getD k "") :=
+  Mwp.Refine.vector_table_documented op hop x a b
+
+theorem loopfree_analysis_is_calculus (node : Node) (cmd : Cmd) (hd : desugar node = some cmd)
+    (hlf : cmd.loopFree = true) (q : Bool) (idx : Nat) (dg : DG.Graph)
+    (hnames : namesOk node = true) (hcast : castOk node = true) :
+    ∃ out, Analysis.compute q idx dg node = .ok out ∧ out.exit = false ∧ out.dg = dg ∧
+      (∀ s ∈ out.skipped, s ∈ bareClasses) ∧ (noBare node = true → out.skipped = []) ∧
+      out.index = idx + cmd.arity ∧
+      ∃ r, out.rels = [r] ∧ r.WF ∧ (∀ v ∈ r.vars, v ∈ cmd.vars) ∧
+        ∀ U, U.Nodup → (∀ v ∈ cmd.vars, v ∈ U) →
+        ∀ c, (∀ k, idx ≤ k → k < idx + cmd.arity → ∃ a, c[k]? = some a ∧ a < 3) →
+          (∀ a b, r.den c a b ≠ .i) ∧
+          ∃ M, sem U cmd idx (relabelAt idx cmd c) = some (idx + cmd.arity, M) ∧
+            ∀ x y, x ∈ U → y ∈ U → r.den c x y = SMat.den U M x y :=
+  Mwp.compute_refines_loopfree_partial node cmd hd hlf q idx dg hnames hcast
+
 end Mwp.Props.C01
